@@ -38,6 +38,10 @@ MUTANTS = [
     ("M41", "address_base.py", "            if other_ipnet.subnet_of(self_ipnet):\n                return True\n            return False\n\n        # other=AddrGroup", "            if other_ipnet.overlaps(self_ipnet):\n                return True\n            return False\n\n        # other=AddrGroup", "C13"),
     ("M42", "addr_group.py", "                if other in item:\n                    return True\n            return False\n\n        if isinstance(other, AddrGroup):", "                if item in other:\n                    return True\n            return False\n\n        if isinstance(other, AddrGroup):", "C13"),
     ("M43", "helpers.py", "    if not (tops and bottoms):\n        return False", "    if not tops:\n        return False", "C03"),
+    ("M50", "port_name.py", "    \"nntp\": 119,\n    \"bgp\": 179,\n    \"irc\": 194,\n    \"pim-auto-rp\": 496,\n    \"exec\": 512,\n    \"login\": 513,\n    \"cmd\": 514,", "    \"nntp\": 119,\n    \"bgp\": 178,\n    \"irc\": 194,\n    \"pim-auto-rp\": 496,\n    \"exec\": 512,\n    \"login\": 513,\n    \"cmd\": 514,", "C09"),
+    ("M51", "port_name.py", "    items.update(set(TCP_NAME_PORT__NXOS))\n", "", "C09"),
+    ("M52", "protocol.py", "    \"eigrp\": 88,\n    \"ospf\": 89,\n    \"nos\": 94,\n    \"pim\": 103,\n    \"pcp\": 108,\n}\nPROTOCOLS_NXOS", "    \"eigrp\": 88,\n    \"ospf\": 98,\n    \"nos\": 94,\n    \"pim\": 103,\n    \"pcp\": 108,\n}\nPROTOCOLS_NXOS", "C09"),
+    ("M53", "port.py", "        port_name = PortName(protocol=self._protocol, platform=self._platform, version=self.version)\n        data = port_name.ports()", "        port_name = PortName(protocol=self._protocol, platform=\"ios\", version=self.version)\n        data = port_name.ports()", "C09 C02 C06"),
     ("M30", "port.py", "            return [ports[0] - 1] if ports else [65535]", "            return [ports[0]] if ports else [65535]", "C08"),
     ("M31", "port.py", "            return [ports[-1] + 1] if ports else [1]", "            return [ports[1] + 1] if ports else [1]", "C08"),
     ("M32", "port.py", "        ports = sorted(ports)\n        if operator == \"eq\":", "        if operator == \"eq\":", "C08"),
